@@ -573,11 +573,16 @@ def stabilizer_measure(gs_stb, ps_stb, gs_obs, ps_obs, r):
     for k in range(L): # for each observable gs_obs[k]
         update = False
         extend = False
-        p = 0 # pointer
+        p = -1 # pointer
         ga[:] = 0
         pa = 0
+        for j in range(r, N): # an anticommuting active stabilizer takes precedence as pivot (rank is preserved)
+            if acq(gs_stb[j], gs_obs[k]):
+                p = j
+                update = True
+                break
         for j in range(2*N):
-            if acq(gs_stb[j], gs_obs[k]): # find gs_stb[j] anticommute with gs_obs[k]
+            if j != p and acq(gs_stb[j], gs_obs[k]): # find gs_stb[j] anticommute with gs_obs[k]
                 if update: # if gs_stb[j] is not the first anticommuting operator
                     # update gs_stb[j] to commute with gs_obs[k]
                     if j < N: # if gs_stb[j] is a stablizer, phase matters
